@@ -304,3 +304,7 @@ def check(run):
     r6_key_offset(run, F)
     r7_struct_namespace(run, F)
     r8_exported_constant(run, F)
+    # an imported `pub fn` reaches the importer as a FunctionHead: its parameter and return types are scoped like those of a
+    # function, or a struct named in them is never resolved (the split program fails where the single file compiles) (C05.R7)
+    from props import c05 as _c05
+    _c05.r7_visit(run, F)
